@@ -345,7 +345,7 @@ func (t *Term) body() string {
 	case OpExtract:
 		return fmt.Sprintf("((_ extract %d %d) %s)", uint64(t.w)+t.val-1, t.val, t.a.ref())
 	case OpTable:
-		return fmt.Sprintf("(tbl%d %s)", t.tbl.id, t.a.ref())
+		return fmt.Sprintf("(%s %s)", t.tbl.name(t.a.w), t.a.ref())
 	case OpNot, OpNeg, OpBNot:
 		return fmt.Sprintf("(%s %s)", opSMT[t.op], t.a.ref())
 	case OpIte:
@@ -355,9 +355,11 @@ func (t *Term) body() string {
 }
 
 // tableDef renders the define-fun of a lookup table for index width iw.
+func (tbl *Table) name(iw uint8) string { return fmt.Sprintf("tbl%d_%d", tbl.id, iw) }
+
 func (tbl *Table) def(iw uint8) string {
 	var sb strings.Builder
-	fmt.Fprintf(&sb, "(define-fun tbl%d ((i (_ BitVec %d))) (_ BitVec %d) ", tbl.id, iw, tbl.w)
+	fmt.Fprintf(&sb, "(define-fun %s ((i (_ BitVec %d))) (_ BitVec %d) ", tbl.name(iw), iw, tbl.w)
 	// run-length compressed ite chain on i
 	type run struct {
 		end uint64 // inclusive
